@@ -46,10 +46,14 @@ func runC17(w *World) {
 	}
 	var try func(ip, name string) (attempt, *Client)
 	// connect from ip, send handshake + login in one go, report what came back
+	var attemptOn func(c *Client) (attempt, *Client)
 	try = func(ip, name string) (attempt, *Client) {
 		seq++
 		c := w.NewClient(fmt.Sprintf("%s-%d", name, seq), ip)
 		c.Connect()
+		return attemptOn(c)
+	}
+	attemptOn = func(c *Client) (attempt, *Client) {
 		login := rp.Tran{Type: rp.TLogin, ID: 1, Fields: []rp.Field{rp.F(rp.FUserLogin, rp.Obfuscate([]byte("user"))), rp.F(rp.FUserPassword, nil), rp.FS(rp.FUserName, c.Name), rp.F16(rp.FUserIconID, 1)}}
 		c.Sent[1] = rp.TLogin
 		c.nextID = 2
@@ -118,6 +122,16 @@ func runC17(w *World) {
 				return
 			}
 			vid := vc.MyUserID()
+			// a second connection from the same address, accepted before the ban is requested (it has not sent
+			// its handshake yet); it completes handshake + login only after the ban
+			var spare *Client
+			if kick.N[1]%2 == 1 || kick.N[0] == 2 {
+				simrt.Sleep(2100 * time.Millisecond)
+				seq++
+				spare = w.NewClient(fmt.Sprintf("spare-%d", seq), ip)
+				spare.Connect()
+				w.Probe("spare_connection_opened_before_ban")
+			}
 			SettleShort()
 			obsBefore := len(observer.InboxOf(rp.TNotifyDeleteUser))
 			kickAt := w.Sim.Now()
@@ -140,6 +154,21 @@ func runC17(w *World) {
 			if !told {
 				w.Violate("c17-others-not-told", "the other users were not told that the disconnected user (id %d) left", vid)
 				return
+			}
+			if spare != nil {
+				a, _ := attemptOn(spare)
+				switch {
+				case kick.N[0] == 0 && !a.loggedIn && !a.closedSilently:
+					w.Violate("c17-kick-without-ban-refuses-address", "a connection from the kicked (not banned) user's address, opened before the kick, could not log in after it: %+v", a)
+					return
+				case kick.N[0] != 0 && !a.banNotice && !a.closedSilently:
+					w.Violate("c17-banned-address-admitted", "a connection from the banned address that was accepted before the ban and sent its handshake after it was not refused (logged in=%v %s)", a.loggedIn, a.extra)
+					return
+				}
+				if a.loggedIn {
+					spare.Disconnect()
+				}
+				simrt.Sleep(2100 * time.Millisecond)
 			}
 			// ban state model
 			perm := kick.N[0] == 2
